@@ -126,6 +126,19 @@ def opBoolSize (j : Json) : R Json := do
   return Json.arr (vs.map fun v => Json.arr #[Json.bool (getBool v.toList),
     match getSize v.toList with | some n => Json.num n | none => Json.null]).toArray
 
+open Vars in
+/-- {"env":[[key,value]...]} (table order) -> {"ok":[[key,value]...]} | {"error":"value"|"key"} -/
+def opSubstVars (j : Json) : R Json := do
+  let env ← (← fArr j "env").mapM fun e => do
+    let kv ← e.getArr?
+    match kv.toList with
+    | [k, v] => return ((← k.getStr?).toList, (← v.getStr?).toList)
+    | _ => throw "env entry"
+  match substituteVariables env with
+  | .ok e => return Json.mkObj [("ok", Json.arr (e.map fun kv => Json.arr #[encS kv.1, encS kv.2]).toArray)]
+  | .error .value => return Json.mkObj [("error", "value")]
+  | .error .key => return Json.mkObj [("error", "key")]
+
 open Netrc in
 /-- {"files":[[line...]...], "urls":[str...]} -> per url: applied credentials + renderings -/
 def opNetrc (j : Json) : R Json := do
@@ -516,6 +529,7 @@ def dispatch (j : Json) : R Json := do
   | "variant_paths" => opVariantPaths j
   | "findkey" => opFindKey j
   | "boolsize" => opBoolSize j
+  | "subst_vars" => opSubstVars j
   | "plainname" => opPlainName j
   | "resolve" => opResolve j
   | "http_classify" => opHttpClassify j
